@@ -1,6 +1,7 @@
 import LitexProofs.Export.Decode
 import LitexProofs.Export.Roundtrip
 import LitexProofs.Export.MemImage
+import LitexProofs.Export.Soc
 /-
   C14 — exported software maps tell the truth about the hardware.
 
@@ -433,5 +434,173 @@ theorem mem_image_length (big : Bool) (q : Nat) (bytes : List Nat) (hq : 0 < q) 
 example : memImage true 2 0 [1, 2, 3, 4, 5, 6] = [0x0506000001020304] ∧
     imageByte true 2 [0x0506000001020304] 5 = 6 ∧ imageByte true 2 [0x0506000001020304] 6 = 0 ∧
     memImage false 1 0 [1, 2, 3, 4, 5] = [0x04030201, 0x05] := by decide
+
+/-! ## Interrupt numbers -/
+
+section irq
+open Litex.Soc
+variable {ν : Type} [DecidableEq ν]
+
+/-- **irq_export_matches_wiring.**  After ANY history of `SoCIRQHandler` calls (b-c13's `LocH`, starting disabled as
+    the real handler does), for any set of CPU-owned interrupt names and any set of sub-modules:
+    (a) a sub-module's `<NAME>_INTERRUPT = loc` is exported iff `cpu.interrupt[loc]` is wired to that module;
+    (b) no interrupt line is driven by two modules and no module drives two lines;
+    (c) every wired line lies inside the handler's range and below the exported `CONFIG_CPU_INTERRUPTS`;
+    (d) asserting one exported module's event raises exactly the line its constant names. -/
+theorem irq_export_matches_wiring (n : Nat) (ops : List (LocOp ν)) (cpuOwn : List ν) (isModule : ν → Bool) :
+    let s := ({ nLocs := n, enabled := false } : LocH ν).run ops
+    (∀ name loc, isModule name = true →
+      ((name, loc) ∈ irqConstants s.locs cpuOwn ↔ (loc, name) ∈ irqWiring s.locs cpuOwn isModule)) ∧
+    (∀ l n1 n2, (l, n1) ∈ irqWiring s.locs cpuOwn isModule → (l, n2) ∈ irqWiring s.locs cpuOwn isModule → n1 = n2) ∧
+    (∀ l1 l2 nm, (l1, nm) ∈ irqWiring s.locs cpuOwn isModule → (l2, nm) ∈ irqWiring s.locs cpuOwn isModule → l1 = l2) ∧
+    (∀ l nm, (l, nm) ∈ irqWiring s.locs cpuOwn isModule → 0 ≤ l ∧ l < (n : Int) ∧ l < cpuInterrupts s.locs) ∧
+    (∀ name loc, (name, loc) ∈ irqConstants s.locs cpuOwn → isModule name = true →
+      irqLines (irqWiring s.locs cpuOwn isModule) [name] = [loc]) := by
+  intro s
+  obtain ⟨hi, hn⟩ := LocH.run_inv ops (LocH.inv_empty (ν := ν) n false)
+  have hwire : ∀ l nm, (l, nm) ∈ irqWiring s.locs cpuOwn isModule ↔
+      ((nm, l) ∈ s.locs ∧ cpuOwn.contains nm = false ∧ isModule nm = true) := by
+    intro l nm
+    simp only [irqWiring, irqConstants, List.mem_map, List.mem_filter, Prod.mk.injEq, Bool.not_eq_true']
+    constructor
+    · rintro ⟨p, ⟨⟨hp, hc⟩, hm⟩, rfl, rfl⟩; exact ⟨hp, hc, hm⟩
+    · rintro ⟨hp, hc, hm⟩; exact ⟨(nm, l), ⟨⟨hp, hc⟩, hm⟩, rfl, rfl⟩
+  have hconst : ∀ nm l, (nm, l) ∈ irqConstants s.locs cpuOwn ↔ ((nm, l) ∈ s.locs ∧ cpuOwn.contains nm = false) := by
+    intro nm l
+    simp [irqConstants, List.mem_filter]
+  refine ⟨?_, ?_, ?_, ?_, ?_⟩
+  · intro name loc hm
+    rw [hconst, hwire]
+    constructor
+    · rintro ⟨h1, h2⟩; exact ⟨h1, h2, hm⟩
+    · rintro ⟨h1, h2, _⟩; exact ⟨h1, h2⟩
+  · intro l n1 n2 h1 h2
+    have e := eq_of_mem_nodup_snd s.locs hi.locs_nodup (n1, l) (n2, l) ((hwire _ _).1 h1).1 ((hwire _ _).1 h2).1 rfl
+    exact (Prod.mk.inj e).1
+  · intro l1 l2 nm h1 h2
+    have e := eq_of_mem_nodup_fst s.locs hi.names_nodup (nm, l1) (nm, l2) ((hwire _ _).1 h1).1 ((hwire _ _).1 h2).1 rfl
+    exact (Prod.mk.inj e).2
+  · intro l nm h
+    have hmem := ((hwire _ _).1 h).1
+    have hr := hi.in_range (nm, l) hmem
+    rw [hn] at hr
+    refine ⟨hr.1, hr.2, ?_⟩
+    unfold cpuInterrupts
+    have : l ≤ (s.locs.map (·.2)).foldl max 0 :=
+      le_foldl_max _ 0 l (Or.inl (List.mem_map_of_mem (f := (·.2)) hmem))
+    omega
+  · intro name loc hc hm
+    have hmem := ((hconst _ _).1 hc)
+    have hw : (loc, name) ∈ irqWiring s.locs cpuOwn isModule := (hwire _ _).2 ⟨hmem.1, hmem.2, hm⟩
+    unfold irqLines
+    have hnd : (irqWiring s.locs cpuOwn isModule).Nodup := by
+      apply List.Nodup.of_map (·.2)
+      have hmap : (irqWiring s.locs cpuOwn isModule).map (·.2) =
+          ((s.locs.filter fun p => !cpuOwn.contains p.1).filter fun p => isModule p.1).map (·.1) := by
+        simp [irqWiring, irqConstants, List.map_map, Function.comp_def]
+      rw [hmap]
+      exact hi.names_nodup.sublist ((List.filter_sublist.trans List.filter_sublist).map _)
+    rw [filter_eq_singleton _ _ (loc, name) hnd hw (by simp)]
+    · rfl
+    · intro y hy hne
+      obtain ⟨l, nm⟩ := y
+      by_cases hnm : nm = name
+      · subst hnm
+        have e := eq_of_mem_nodup_fst s.locs hi.names_nodup (nm, l) (nm, loc) ((hwire _ _).1 hy).1 hmem.1 rfl
+        exact absurd (by rw [(Prod.mk.inj e).2]) hne
+      · simp [hnm]
+
+/-- Non-vacuity: the handler is enabled, `timer0` allocates 0, `q0` is pinned at 31, `cpuirq` (CPU-owned, location 5)
+    gets no constant; `q0`'s event raises line 31 and `CONFIG_CPU_INTERRUPTS = 32`. -/
+example :
+    let s := ({ nLocs := 32, enabled := false } : LocH Nat).run
+      [.enable, .add 5 (some 5) false, .add 0 none true, .add 1 (some 31) false]
+    irqConstants s.locs [5] = [(0, 0), (1, 31)] ∧ irqWiring s.locs [5] (fun _ => true) = [(0, 0), (31, 1)] ∧
+    irqLines (irqWiring s.locs [5] (fun _ => true)) [1] = [31] ∧ cpuInterrupts s.locs = 32 := by decide
+
+end irq
+
+/-! ## Memory regions -/
+
+section regions
+open Litex.Soc
+variable {ν : Type} [DecidableEq ν]
+
+/- Full statement (does NOT hold without the C13 hypotheses): every published `(base, size)` is answered by exactly its
+   own slave.  The hypotheses below are b-c13's: regions decoded and aligned on their power-of-two window
+   (`finalize_rejects_unaligned`), at least one bus word (`C13-decoder-subword` is the negative witness there), windows
+   pairwise disjoint (`check_regions_overlap`, `one_slave_per_address_partial`). -/
+omit [DecidableEq ν] in
+/-- **region_export_decoded_partial.**  `mem.h` / JSON / linker publish exactly `origin, size` of every bus region, and
+    for every word address whose byte address lies in a published range `[base, base+size)` the interconnect's decoders
+    (b-c13's `decoderAccepts`, `region_decoder_exact_partial`) select exactly that region's slave. -/
+theorem region_export_decoded_partial (aw dw sh : Nat) (regions : List (ν × Region)) (name : ν) (r : Region) (a : Nat)
+    (hmem : (name, r) ∈ regions) (hnames : (regions.map (·.1)).Nodup)
+    (hdw : dw / 8 = 2 ^ sh) (hsh : sh ≤ aw) (ha : a < 2 ^ (aw - sh))
+    (hall : ∀ p ∈ regions, p.2.decode = true ∧ p.2.aligned = true ∧ dw / 8 ≤ p.2.p2)
+    (hdis : ∀ p ∈ regions, ∀ q ∈ regions, p ≠ q → WinDisjoint p.2 q.2)
+    (hx : r.origin ≤ a * (dw / 8) ∧ a * (dw / 8) < r.origin + r.size) :
+    (name, r.origin, r.size) ∈ memExport regions ∧ selectedSlaves aw dw regions a = [name] := by
+  constructor
+  · exact List.mem_map.2 ⟨(name, r), hmem, rfl⟩
+  · have hwin : r.InWindow (a * (dw / 8)) :=
+      ⟨hx.1, Nat.lt_of_lt_of_le hx.2 (Nat.add_le_add_left (le_pow2ceil r.size) _)⟩
+    obtain ⟨hd, hal, hw⟩ := hall _ hmem
+    have hacc : decoderAccepts aw dw r a = true := (decoderAccepts_iff aw dw sh r a hdw hsh hd hal hw ha).2 hwin
+    unfold selectedSlaves
+    rw [filter_eq_singleton _ regions (name, r) (nodup_of_nodup_map_fst _ hnames) hmem hacc]
+    · rfl
+    · intro q hq hne
+      obtain ⟨hdq, halq, hwq⟩ := hall _ hq
+      by_contra hc
+      have hq' : decoderAccepts aw dw q.2 a = true := by simpa using hc
+      have := (decoderAccepts_iff aw dw sh q.2 a hdw hsh hdq halq hwq ha).1 hq'
+      exact hdis q hq (name, r) hmem hne (a * (dw / 8)) ⟨this, hwin⟩
+
+/-- Non-vacuity: a 0x300-byte RAM at 0 (decoded as 0x400), a 0x100-byte RAM at 0x400, the CSR window at 0xf0000000:
+    the last published word of the first RAM selects only it; negative witness for the disjointness hypothesis (the
+    placement seeded change C14-m3 produced): a RAM inside the first one's power-of-two shadow is selected together
+    with it. -/
+example :
+    selectedSlaves 32 32 [(0, ⟨0, 0x300, true, false, true⟩), (1, ⟨0x400, 0x100, true, false, true⟩),
+                          (2, ⟨0xf0000000, 0x10000, false, false, true⟩)] (0x2fc / 4) = [0] ∧
+    memExport [(0, (⟨0, 0x300, true, false, true⟩ : Region)), (1, ⟨0x400, 0x100, true, false, true⟩)]
+      = [(0, 0, 0x300), (1, 0x400, 0x100)] ∧
+    selectedSlaves 32 32 [(0, ⟨0, 0x300, true, false, true⟩), (1, ⟨0x300, 0x100, true, false, true⟩)] (0x300 / 4) = [0, 1] := by
+  decide +kernel
+
+end regions
+
+/-! ## Constants -/
+
+/-- **constants_declared_once.**  `SoC.add_constant` (duplicate check on): whatever sequence of declarations a build
+    survives, every exported constant name is defined exactly once, in declaration order, with the value it was
+    declared with (soc.h `#define`, JSON/CSV `constants`, SVD `<constant>` all print that list). -/
+theorem constants_declared_once {ν : Type} [DecidableEq ν] (l cs' : List (ν × Int))
+    (h : addConstants [] l = some cs') : (cs'.map (·.1)).Nodup ∧ cs' = l := by
+  have := addConstants_nodup l [] cs' h (by simp)
+  simpa using this
+
+example : addConstants [] [(0, 32), (1, 4), (2, -1)] = some [(0, 32), (1, 4), ((2 : Nat), -1)] ∧
+    addConstants [] [(0, 32), (1, 4), ((0 : Nat), 7)] = none := by decide
+
+/-! ## SVD with register kinds -/
+
+/-- **json_csv_svd_agree_kinds.**  `json_csv_svd_agree` at the generality of the register kinds: for every bank of
+    compound registers (`CSRStorage`/`CSRStatus`, any width) and plain `CSR`s (at most one bus word — `GenericBank`
+    asserts it), the SVD register list — one entry per simple CSR of a multi-word compound register, ONE entry for
+    everything else, plain CSRs included — enumerates exactly the word addresses of the JSON/CSV export. -/
+theorem json_csv_svd_agree_kinds (csrBase paging bw page : Nat) (regs : List (Nat × Bool)) (hbw : 0 < bw)
+    (hregs : ∀ r ∈ regs, 0 < r.1 ∧ (r.2 = true ∨ nwords bw r.1 = 1)) :
+    svdAddrsK csrBase paging bw page regs =
+      flatWordAddrs 4 (regAddrs (32 / 8) bw (regionOrigin csrBase paging ⟨page, regs.map (·.1)⟩) (regs.map (·.1))) := by
+  unfold svdAddrsK regionOrigin
+  have := svdOffsetsK_flat bw (csrBase + paging * page) hbw regs 0 hregs
+  simpa using this
+
+/-- Non-vacuity (a plain 5-bit CSR between two compound registers), and the negative witness for the hypothesis: a
+    plain CSR wider than the bus word (refused by `GenericBank`) would get one SVD entry for two exported words. -/
+example : svdAddrsK 0 0x800 32 2 [(40, true), (5, false), (33, true)] = [4096, 4100, 4104, 4108, 4112] ∧
+    svdAddrsK 0 0x800 32 0 [(40, false)] ≠ flatWordAddrs 4 (regAddrs 4 32 0 [40]) := by decide
 
 end Litex.Export
